@@ -1207,6 +1207,24 @@ fn native_spec() {
                 std::env::remove_var(var);
             }
         }
+    } else if target == "conditional_default_explicit" {
+        // C06: default_value_if fires only for an argument that was really used, whatever the definition order
+        for other_first in [true, false] {
+            for pred_eq in [false, true] {
+                let other = Arg::new("other").long("other").action(ArgAction::Set).default_value("d");
+                let pred = if pred_eq { crate::builder::ArgPredicate::Equals("d".into()) } else { crate::builder::ArgPredicate::IsPresent };
+                let arg = Arg::new("arg").long("arg").action(ArgAction::Set).default_value_if("other", pred, "fired");
+                let c = Command::new("p");
+                let cmd = if other_first { c.arg(other).arg(arg) } else { c.arg(arg).arg(other) };
+                for (argv, want) in [(vec!["p"], None), (vec!["p", "--other", "d"], Some("fired")), (vec!["p", "--arg", "mine", "--other", "d"], Some("mine"))] {
+                    let m = cmd.clone().try_get_matches_from(argv.clone()).expect("parses");
+                    let got = m.get_one::<String>("arg").map(|s| s.as_str());
+                    if got != want {
+                        println!("SPEC-REPLAY MISMATCH target=conditional_default_explicit case=other_first={other_first} equals={pred_eq} {argv:?}: arg = {got:?}, expected {want:?}");
+                    }
+                }
+            }
+        }
     } else if target == "subcommand_dispatch_guard" {
         // C09: a value of a multi-value option / positional that spells a subcommand name stays a value (unless subcommand_precedence_over_arg)
         for prec in [false, true] {
